@@ -15,7 +15,8 @@ var c20Types = []uint64{
 	MessageTypeSubscribeTx, MessageTypeUnsubscribeTx, MessageTypeSubscribeOutputs,
 	MessageTypeUnsubscribeOutputs, MessageTypeSubscribeHeaders, MessageTypeUnsubscribeHeaders,
 	MessageTypeSubscribeContracts, MessageTypeUnsubscribeContracts, MessageTypeReady,
-	MessageTypeGetChainTip, MessageTypeGetHeaders, MessageTypeSendTx, MessageTypeGetTx,
+	MessageTypeGetChainTip, MessageTypeGetHeaders, MessageTypeSendTx, MessageTypeSendExpandedTx,
+	MessageTypeSaveTxs, MessageTypeGetTx,
 	MessageTypeGetHeader, MessageTypeGetFeeQuotes, MessageTypePostMerkleProofs,
 	MessageTypeReprocessTx, MessageTypeMarkHeaderInvalid, MessageTypeMarkHeaderNotInvalid,
 	MessageTypeAcceptRegister, MessageTypeBaseTx, MessageTypeTx, MessageTypeTxUpdate,
@@ -31,7 +32,8 @@ func c20Lens() []int {
 }
 
 // VerifHarness_C20_client decodes L symbolic bytes as the payload of every
-// message type (bsor-based SendExpandedTx / SaveTxs excepted).
+// message type (the bsor bodies of SendExpandedTx / SaveTxs are opaque: the decode of the
+// length-prefixed body either fails or succeeds without interpreting the bytes).
 func VerifHarness_C20_client() {
 	t := c20Types[verifrt.Choose("type", len(c20Types))]
 	lens := c20Lens()
